@@ -479,8 +479,33 @@ def r6_coordinate_siblings(ck, P):
                     if len(mem) < 2:
                         continue
                     n += 1; ck.saw(f)
-                    aff = [ph for ph, p in mem if p['step'] is not None]
-                    non = [ph for ph, p in mem if p['step'] is None]
+                    blocks_ = set(lp['blocks'])
+
+                    def kinds_of(ph):
+                        # how the component reaches the back edge: advanced (phi + step), unchanged, or something else
+                        def classify(o, seen):
+                            if o == ['v', ph.i]:
+                                return {'same'}
+                            if o[0] != 'v' or o[1] in seen:
+                                return set()
+                            seen.add(o[1])
+                            y = f.by_id[o[1]]
+                            if y.op in ('add', 'sub') and any(q == ['v', ph.i] for q in y.a):
+                                return {'adv'}
+                            if y.op == 'phi' and y.bb.id in blocks_:
+                                r = set()
+                                for q in y.a:
+                                    r |= classify(q, seen)
+                                return r
+                            return {'other'}
+                        ks = set()
+                        for a_, bb_ in zip(ph.a, ph.d['bb']):
+                            if bb_ in blocks_:
+                                ks |= classify(a_, set())
+                        return ks
+                    kinds = {ph.i: kinds_of(ph) for ph, p in mem}
+                    aff = [ph for ph, p in mem if kinds[ph.i] == {'adv'}]
+                    non = [ph for ph, p in mem if 'same' in kinds[ph.i]]
                     names = '/'.join(ph.dv or '?' for ph, p in mem)
                     if aff and non:
                         ck.violation(R, f.name, 'position components %s' % names, '%s advances %s on every iteration but %s only on some paths (loop at block %d): after a skipped pixel the remaining pixels of the scanline are sampled with a stale component' % (f.name, '/'.join(ph.dv or '?' for ph in aff), '/'.join(ph.dv or '?' for ph in non), lp['header']), non[0].loc())
